@@ -31,6 +31,8 @@ pub enum Kind {
     ClearGrad,
     Update,
     Probe,
+    /// `let y = x.clone().untracked().tracked();` - a second handle on the same array whose flags went off and on
+    Retrack,
 }
 
 #[derive(Clone, Debug)]
@@ -65,7 +67,7 @@ impl GenCfg {
     pub fn programs(exact_only: bool) -> GenCfg {
         use Kind::*;
         GenCfg {
-            kinds: vec![(Binary, 30), (Unary, 18), (Leaf, 8), (SumReshape, 8), (Matmul, 8), (Rebind, 6), (Custom, 6), (CloneH, 3), (Conv, 4), (IfGt, 5), (Flag, 4), (DropH, 2)],
+            kinds: vec![(Binary, 30), (Unary, 18), (Leaf, 8), (SumReshape, 8), (Matmul, 8), (Rebind, 6), (Custom, 6), (CloneH, 3), (Conv, 4), (IfGt, 5), (Flag, 4), (Retrack, 3), (DropH, 2)],
             max_rank: 3,
             max_size: 3,
             max_elems: 64,
@@ -521,6 +523,29 @@ impl<'a> El<'a> {
                 let cands: Vec<usize> = all_live.iter().copied().filter(|h| !self.is_grad(*h)).collect();
                 if !cands.is_empty() {
                     self.emit(Step::ClearGrad { h: pick(i[1], &cands), via_replace: i[4] & 1 == 1 });
+                }
+            }
+            Kind::Retrack => {
+                let cands: Vec<usize> = all_live.iter().copied().filter(|h| !self.is_grad(*h)).collect();
+                if !cands.is_empty() {
+                    let h = pick(i[1], &cands);
+                    if self.emit(Step::Clone { h }) {
+                        let c = self.m.handles.len() - 1;
+                        match i[4] % 3 {
+                            0 => {
+                                self.emit(Step::Flag { h: c, how: FlagOp::Untracked });
+                                self.emit(Step::Flag { h: c, how: FlagOp::Tracked });
+                            }
+                            1 => {
+                                self.emit(Step::Flag { h: c, how: FlagOp::Stop });
+                                self.emit(Step::Flag { h: c, how: FlagOp::Start });
+                            }
+                            _ => {
+                                self.emit(Step::Flag { h: c, how: FlagOp::Untracked });
+                                self.emit(Step::Flag { h: c, how: FlagOp::Start });
+                            }
+                        }
+                    }
                 }
             }
             Kind::Probe => {
